@@ -55,10 +55,16 @@ type finding struct {
 
 // outcome is what one protocol run yields for the oracle.
 type outcome struct {
-	tr       *drive.Trace
-	ids      []sharing.ID // the protocol's parties, ascending
-	agg      bool         // the protocol has an aggregator whose verdict is tr.Verdicts[0]
-	setupErr string
+	tr  *drive.Trace
+	ids []sharing.ID // the protocol's parties, ascending
+	agg bool         // the protocol has an aggregator whose verdict is tr.Verdicts[0]
+	// aggRound: the round whose messages are the INPUT of the aggregator (partial signatures, passed
+	// with recipient 0); cosigners: every party also aggregates that input itself (cosigning
+	// aggregator).  A message of that round is addressed to each of these consumers, so a bound leaf
+	// of it must be refused by EVERY honest consumer, not just by one of them.
+	aggRound  int
+	cosigners bool
+	setupErr  string
 	// judge evaluates clause (c) for the honest parties (all but dev; dev == 0: everybody is
 	// honest) and returns the failures and the list of honest parties / aggregator (0) that
 	// returned a result.
@@ -150,6 +156,20 @@ func honestOf(ids []sharing.ID, dev sharing.ID) []sharing.ID {
 }
 
 func adapters(tier string) []*adapter {
+	l22norm := func(r int, bc bool, b []byte) []byte {
+		switch {
+		case r == 1 && bc:
+			return normAs[*l22signing.Round1Broadcast[kP, kS, bip340.Message]](b)
+		case r == 1:
+			return normAs[*l22signing.Round1P2P[kP, kS, bip340.Message]](b)
+		case r == 2:
+			return normAs[*l22signing.Round2Broadcast[kP, kS, bip340.Message]](b)
+		case r == 3:
+			return normAs[*rl22.PartialSignature[kP, kS]](b)
+		}
+		return nil
+	}
+
 	dklsQuorum := []sharing.ID{1, 2}
 	if tier == "thorough" {
 		dklsQuorum = parties
@@ -200,19 +220,11 @@ func adapters(tier string) []*adapter {
 			}
 			return nil
 		}},
-		{name: "lindell22", modelled: true, run: runL22, norm: func(r int, bc bool, b []byte) []byte {
-			switch {
-			case r == 1 && bc:
-				return normAs[*l22signing.Round1Broadcast[kP, kS, bip340.Message]](b)
-			case r == 1:
-				return normAs[*l22signing.Round1P2P[kP, kS, bip340.Message]](b)
-			case r == 2:
-				return normAs[*l22signing.Round2Broadcast[kP, kS, bip340.Message]](b)
-			case r == 3:
-				return normAs[*rl22.PartialSignature[kP, kS]](b)
-			}
-			return nil
-		}},
+		{name: "lindell22", modelled: true, run: runL22, norm: l22norm},
+		// two signers: the deviator and ONE honest cosigner, plus the plain aggregator
+		{name: "lindell22-2", modelled: true, run: func(seed int64, label map[sharing.ID]string, hook drive.Hook) *outcome {
+			return runL22q(seed, label, hook, []sharing.ID{1, 2})
+		}, norm: l22norm, first: []string{"signature.e.fieldBytes", "signature.r.compressedBytes", "signature.s.fieldBytes"}},
 		{name: "boldyreva", modelled: true, run: func(seed int64, label map[sharing.ID]string, hook drive.Hook) *outcome {
 			return runBls(seed, label, hook, []sharing.ID{1, 2}) // minimal quorum: an unusable partial signature cannot be made up for
 		}},
@@ -422,7 +434,7 @@ func runDkls(seed int64, label map[sharing.ID]string, hook drive.Hook, mult stri
 	c := common(seed, label, hook)
 	c.Quorum = quorum
 	res := ddkls.RunFull(ddkls.Config{Common: c, Policy: policy, Curve: "k256", Hash: "sha256", Multiplier: mult})
-	o := &outcome{tr: res.Trace, ids: res.Quorum, agg: true, setupErr: res.SetupErr}
+	o := &outcome{tr: res.Trace, ids: res.Quorum, agg: true, aggRound: map[string]int{"bbot": 4, "softspoken": 5}[mult], setupErr: res.SetupErr}
 	o.judge = func(dev sharing.ID) (bad []finding, returned []sharing.ID) {
 		if res.Sig == nil {
 			return nil, nil
@@ -443,8 +455,14 @@ func runDkls(seed int64, label map[sharing.ID]string, hook drive.Hook, mult stri
 // ---- lindell22 (BIP-340) ---------------------------------------------------------------
 
 func runL22(seed int64, label map[sharing.ID]string, hook drive.Hook) *outcome {
-	res := dl22.RunFull(dl22.Config{Common: common(seed, label, hook), Policy: policy, Variant: "bip340"})
-	o := &outcome{tr: res.Trace, ids: res.Quorum, agg: true, setupErr: res.SetupErr}
+	return runL22q(seed, label, hook, parties)
+}
+
+func runL22q(seed int64, label map[sharing.ID]string, hook drive.Hook, quorum []sharing.ID) *outcome {
+	c := common(seed, label, hook)
+	c.Quorum = quorum
+	res := dl22.RunFull(dl22.Config{Common: c, Policy: policy, Variant: "bip340"})
+	o := &outcome{tr: res.Trace, ids: res.Quorum, agg: true, aggRound: 3, cosigners: true, setupErr: res.SetupErr}
 	o.judge = func(dev sharing.ID) (bad []finding, returned []sharing.ID) {
 		chk := func(who sharing.ID, s *dl22.Sig) {
 			if s == nil {
@@ -576,7 +594,7 @@ func runBls(seed int64, label map[sharing.ID]string, hook drive.Hook, quorum []s
 	c := common(seed, label, hook)
 	c.Quorum = quorum
 	res := dbls.RunFull(dbls.Config{Common: c, Policy: policy, KeySize: "short", Mode: "basic"})
-	o := &outcome{tr: res.Trace, ids: res.Quorum, agg: true, setupErr: res.SetupErr}
+	o := &outcome{tr: res.Trace, ids: res.Quorum, agg: true, aggRound: 1, setupErr: res.SetupErr}
 	o.judge = func(dev sharing.ID) (bad []finding, returned []sharing.ID) {
 		if res.Sig == nil {
 			return nil, nil
@@ -627,7 +645,7 @@ func runCggmp(seed int64, label map[sharing.ID]string, hook drive.Hook) *outcome
 	c := common(seed, label, hook)
 	c.Quorum = []sharing.ID{1, 2}
 	res := dcg.RunFull(dcg.Config{Common: c, Policy: policy, Curve: "k256", Hash: "sha256"})
-	o := &outcome{tr: res.Trace, ids: res.Quorum, agg: true, setupErr: res.SetupErr}
+	o := &outcome{tr: res.Trace, ids: res.Quorum, agg: true, aggRound: 4, setupErr: res.SetupErr}
 	o.judge = func(dev sharing.ID) (bad []finding, returned []sharing.ID) {
 		if res.Sig == nil {
 			return nil, nil
